@@ -61,8 +61,6 @@ package paillier
 
 //@ func (*PublicKey).WriteTo
 //@   nopanic[C05]
-//@   modifies nothing
-//@   allocates
 //@   requires w != nil && (pk != nil ==> pkok(pk))
 
 //@ func (PublicKey).Equal
@@ -98,8 +96,6 @@ package paillier
 
 //@ func (*Ciphertext).WriteTo
 //@   nopanic[C05]
-//@   modifies nothing
-//@   allocates
 //@   requires w != nil
 
 //@ func (*Ciphertext).MarshalBinary
@@ -119,3 +115,13 @@ package paillier
 //@   allocates
 //@   requires ct != nil
 //@   ensures result != nil
+
+// ---- encoders (C19, C09, C10)
+//@ spec fn nbytes(Int) Int
+//@ spec fn nfill(Int, Int) Int
+//@ func (*PublicKey).WriteTo
+//@   modifies wlog(w)
+//@   ensures[C19,C09] (result1 == nil && pk != nil) ==> wlog(w) == wcat(old(wlog(w)), nbytes(pk.n.Modulus))
+//@ func (*Ciphertext).WriteTo
+//@   modifies wlog(w)
+//@   ensures[C19,C10] (result1 == nil && ct != nil) ==> wlog(w) == wcat(old(wlog(w)), nfill(ct.c, 512))
